@@ -125,7 +125,8 @@ impl SimWriter {
         s
     }
 
-    pub fn do_write(&mut self, buf: &[u8], std_semantics: bool) -> IoOut {
+    /// `std_semantics`: `Ok(0)` may be injected; `intr`: a retryable `Interrupted` error may be injected
+    pub fn do_write(&mut self, buf: &[u8], std_semantics: bool, intr: bool) -> IoOut {
         let mut log = self.log.borrow_mut();
         log.calls += 1;
         if log.calls > CALL_CAP {
@@ -150,7 +151,7 @@ impl SimWriter {
         let step = self.next_step();
         let mut log = self.log.borrow_mut();
         let k = match step {
-            WStep::Interrupted if std_semantics && self.intr_run < 2 => {
+            WStep::Interrupted if intr && self.intr_run < 2 => {
                 self.intr_run += 1;
                 log.interrupted += 1;
                 let at = log.accepted.len() as u32;
@@ -235,7 +236,7 @@ impl SimReader {
         s
     }
 
-    pub fn do_read(&mut self, buf: &mut [u8], std_semantics: bool) -> IoOut {
+    pub fn do_read(&mut self, buf: &mut [u8], intr: bool) -> IoOut {
         let mut log = self.log.borrow_mut();
         log.calls += 1;
         if log.calls > CALL_CAP {
@@ -280,7 +281,7 @@ impl SimReader {
         let step = self.next_step();
         let mut log = self.log.borrow_mut();
         let k = match step {
-            RStep::Interrupted if std_semantics && self.intr_run < 2 => {
+            RStep::Interrupted if intr && self.intr_run < 2 => {
                 self.intr_run += 1;
                 log.interrupted += 1;
                 log.push_ev((b'I', pos as u32, buf.len() as u32));
@@ -317,7 +318,7 @@ impl SimReader {
 
 impl std::io::Write for SimWriter {
     fn write(&mut self, buf: &[u8]) -> std::io::Result<usize> {
-        match self.do_write(buf, true) {
+        match self.do_write(buf, true, true) {
             IoOut::Ok(n) => Ok(n),
             IoOut::Interrupted => Err(std::io::Error::from(std::io::ErrorKind::Interrupted)),
             IoOut::Hard => Err(std::io::Error::from(std::io::ErrorKind::BrokenPipe)),
@@ -340,8 +341,9 @@ impl std::io::Read for SimReader {
 
 // ---- embedded-io -------------------------------------------------------------------------------
 
+/// error type of the simulated embedded-io devices; `true` = `ErrorKind::Interrupted` (0.6 only)
 #[derive(Debug)]
-pub struct EioErr;
+pub struct EioErr(pub bool);
 
 #[cfg(feature = "eio06")]
 mod eio_impl {
@@ -349,7 +351,11 @@ mod eio_impl {
     use embedded_io_06 as eio;
     impl eio::Error for EioErr {
         fn kind(&self) -> eio::ErrorKind {
-            eio::ErrorKind::Other
+            if self.0 {
+                eio::ErrorKind::Interrupted
+            } else {
+                eio::ErrorKind::Other
+            }
         }
     }
     impl eio::ErrorType for SimWriter {
@@ -360,20 +366,23 @@ mod eio_impl {
     }
     impl eio::Write for SimWriter {
         fn write(&mut self, buf: &[u8]) -> Result<usize, EioErr> {
-            match self.do_write(buf, false) {
+            // embedded-io 0.6 has ErrorKind::Interrupted; its write_all / read_exact do not retry
+            match self.do_write(buf, false, true) {
                 IoOut::Ok(n) => Ok(n),
-                _ => Err(EioErr),
+                IoOut::Interrupted => Err(EioErr(true)),
+                IoOut::Hard => Err(EioErr(false)),
             }
         }
         fn flush(&mut self) -> Result<(), EioErr> {
-            self.do_flush().map_err(|_| EioErr)
+            self.do_flush().map_err(|_| EioErr(false))
         }
     }
     impl eio::Read for SimReader {
         fn read(&mut self, buf: &mut [u8]) -> Result<usize, EioErr> {
-            match self.do_read(buf, false) {
+            match self.do_read(buf, true) {
                 IoOut::Ok(n) => Ok(n),
-                _ => Err(EioErr),
+                IoOut::Interrupted => Err(EioErr(true)),
+                IoOut::Hard => Err(EioErr(false)),
             }
         }
     }
@@ -396,20 +405,20 @@ mod eio_impl {
     }
     impl eio::blocking::Write for SimWriter {
         fn write(&mut self, buf: &[u8]) -> Result<usize, EioErr> {
-            match self.do_write(buf, false) {
+            match self.do_write(buf, false, false) {
                 IoOut::Ok(n) => Ok(n),
-                _ => Err(EioErr),
+                _ => Err(EioErr(false)),
             }
         }
         fn flush(&mut self) -> Result<(), EioErr> {
-            self.do_flush().map_err(|_| EioErr)
+            self.do_flush().map_err(|_| EioErr(false))
         }
     }
     impl eio::blocking::Read for SimReader {
         fn read(&mut self, buf: &mut [u8]) -> Result<usize, EioErr> {
             match self.do_read(buf, false) {
                 IoOut::Ok(n) => Ok(n),
-                _ => Err(EioErr),
+                _ => Err(EioErr(false)),
             }
         }
     }
